@@ -27,6 +27,10 @@ def slice_triangles_by_plane(
     # was passed in; every return path then satisfies the assertion below.
     vertices = np.asarray(vertices, dtype=np.float64)
     num_faces = vg.shape.check(locals(), "faces", (-1, 3))
+    # Likewise work on faces in the face dtype: unsigned index arrays (uint32
+    # is common) are otherwise rejected by the bin counting, depending on where
+    # the plane happens to be.
+    faces = np.asarray(faces, dtype=FACE_DTYPE)
     vg.shape.check(locals(), "plane_reference_point", (3,))
     vg.shape.check(locals(), "plane_normal", (3,))
     if faces_to_slice is not None:
